@@ -27,7 +27,7 @@ var hostErrMethodNames = map[string]bool{"Error": true}
 
 // NumSymTypes is the size of the universe of symbolic plain types (vT0..vT7
 // in the native harness).
-const NumSymTypes = 8
+const NumSymTypes = 16
 
 // newSymType creates a fresh symbolic plain type and returns the
 // reflect.Type value of a pointer to it.
@@ -36,7 +36,7 @@ func (p *Path) newSymType(name string) value {
 	p.addPC(p.ts.Bin(OpULt, id, p.ts.Const(NumSymTypes, 8)))
 	obj := types.NewTypeName(token.NoPos, p.P.Main.Pkg, fmt.Sprintf("vT?%d", len(p.symTypes)), nil)
 	st := types.NewStruct([]*types.Var{
-		types.NewField(token.NoPos, p.P.Main.Pkg, "tok", types.Typ[types.Int64], false),
+		types.NewField(token.NoPos, p.P.Main.Pkg, "Tok", types.Typ[types.Int64], false),
 	}, nil)
 	named := types.NewNamed(obj, st, nil)
 	p.symTypes[named] = id
